@@ -21,9 +21,12 @@ EXTENDS Naturals
 
 CONSTANTS Descs,       \* set of description ids (positive naturals)
           ExportDescs, \* the descriptions an EXPORTED project can hold (its network file is the native reactions.naunet)
+          GpuDescs,    \* the descriptions whose solver runs on the gpu device (their sources are other FILES: *.cu)
           PVariant     \* "asis" | seeded design variants
 InitDescs == Descs \ ExportDescs
 SameKind(a, b) == (a \in ExportDescs) = (b \in ExportDescs)
+(* a directory is not re-purposed for another device here: the old device's source files would stay next to the new ones *)
+SameDevice(a, b) == (a \in GpuDescs) = (b \in GpuDescs)
 
 VARIABLES cfg, tree, summ, patch
 pvars == <<cfg, tree, summ, patch>>
@@ -39,7 +42,7 @@ InitCmd(d) ==
   /\ UNCHANGED <<tree, patch>>
 
 (* the user edits the chemistry / solver tables of the configuration file; the [summary] table, if any, stays as it is *)
-Edit(d) == cfg # 0 /\ d \in Descs /\ SameKind(d, cfg) /\ cfg' = d /\ UNCHANGED <<tree, summ, patch>>
+Edit(d) == cfg # 0 /\ d \in Descs /\ SameKind(d, cfg) /\ SameDevice(d, cfg) /\ cfg' = d /\ UNCHANGED <<tree, summ, patch>>
 
 (* naunet render [--force]: refuses to touch non-empty directories unless forced *)
 Render(force) ==
@@ -61,6 +64,7 @@ RenderPatch ==
    (with its summary) and the sources of d; an existing one is left alone unless overwrite is set, and then ALL of them are replaced *)
 Export(d, ow) ==
   /\ d \in ExportDescs
+  /\ cfg = 0 \/ ~ow \/ SameDevice(d, cfg)
   /\ IF cfg = 0 \/ ow
        THEN IF PVariant = "export_keeps_config" /\ cfg # 0
               THEN tree' = d /\ UNCHANGED <<cfg, summ>>
